@@ -210,6 +210,15 @@ def r3_product_types(ctx):
         def __repr__(self):
             return f"{self.cls}({self.val})" if self.val is not None else self.cls
 
+        # values of different classes can be equal (1 == 1.0 == True): equal payloads are equal values
+        def __eq__(self, o):
+            if isinstance(o, V):
+                return (self.cls, self.val) == (o.cls, o.val)
+            return self.val is not None and self.val == o
+
+        def __hash__(self):
+            return hash((self.cls, self.val))
+
     class Dep:
         """a value-dependent element type: instances are the `bound` values whose payload equals `p`"""
 
@@ -219,6 +228,10 @@ def r3_product_types(ctx):
         def __repr__(self):
             return "Literal[0]"
 
+    # an element that *is* a Literal of the package (an object of its Equals class): instances are the ints equal to 0
+    lits = [k for k in repo.all_classes() if k.name == "Equals"]
+    LIT = Instance(lits[0].name if lits else "Equals", {})
+    LIT.__dict__.update(parameters=(0,), __args__=(0,), bound="int", keyable_type=True, exclusive_type=False, bound_is_name=False)
     for c in prods:
         cg = c.methods["codegen"]
         ck = c.methods["check"]
@@ -231,15 +244,22 @@ def r3_product_types(ctx):
         for label, params, pool in (
             ("plain classes", ("T0", "T1", "T2"), [V("T0"), V("T1"), V("T2"), V("X")]),
             ("a value-dependent type in the middle", ("T0", Dep(), "T2"), [V("T0"), V("int", 0), V("float", 0), V("int", 1), V("T2")]),
+            ("a Literal in the middle", ("T0", LIT, "T2"), [V("T0"), V("int", 0), V("float", 0), V("bool", 0), V("int", 1), V("T2")]),
         ):
             def inst(v, t):
                 if t is tuple or t == "tuple":
                     return isinstance(v, tuple)
+                if isinstance(v, Instance):
+                    # a test on an element *type* (is it a Literal of the package?), not on a value
+                    ts = t if isinstance(t, tuple) and t and isinstance(t[0], tuple) else (t,)
+                    return any(isinstance(x, tuple) and len(x) == 2 and x[0] == "class" and x[1] in (v._cls_name, "ParametrizedDependentType", "DependentType") for x in ts)
                 if not isinstance(v, V):
                     return False
                 if isinstance(t, Dep):
                     return v.cls == t.bound and v.val == t.p
-                return v.cls == t
+                if t is LIT:
+                    return v.cls == "int" and v.val in (0,)
+                return v.cls is not None and isinstance(t, str) and v.cls == t
 
             values = [v for k in (2, 3, 4) for v in itertools.product(pool, repeat=k) if k == 3 or all(inst(a, b) for a, b in zip(v, params))]
             want = {v: len(v) == len(params) and all(inst(a, b) for a, b in zip(v, params)) for v in values}
@@ -253,9 +273,16 @@ def r3_product_types(ctx):
                 hi.call_function(cgm["__init__"], [o, "({arg}.val == {p})"], {"p": Dep.p}, {})
                 return o
 
+            def lit_codegen(hi=hi):
+                o = Instance("CodeGen", cgm)
+                hi.call_function(cgm["__init__"], [o, "({arg}.val in {ps})"], {"ps": (0,)}, {})
+                return o
+
             for t in params:
                 if isinstance(t, Dep):
                     t.codegen = HostFn(dep_codegen)
+                if t is LIT:
+                    t.__dict__["codegen"] = HostFn(lit_codegen)
             problems_cg = None
             problems_ck = None
             try:
